@@ -6,6 +6,7 @@ mod childrun;
 mod codec;
 mod e2e;
 mod e2epub;
+mod e2erec;
 mod e2ereq;
 mod e2etls;
 mod fanout;
@@ -61,6 +62,7 @@ fn main() {
         "e2ereq" => e2ereq::run(&cfg),
         "registry" => registry::run(&cfg),
         "e2etls" => e2etls::run(&cfg),
+        "e2erec" => e2erec::run(&cfg),
         other => { eprintln!("unknown suite {other}"); std::process::exit(2); }
     }
 }
